@@ -692,6 +692,60 @@ func (x *gen) directedOddCalls() {
 		c.exec(fmt.Sprintf("process %d", l.id))
 	}
 	c.exec("flush 3")
+	x.campaignOnPendingSnapshot()
+}
+
+// campaignOnPendingSnapshot: a follower that fell behind the leader's compaction point steps the
+// MsgSnap and, before its application has handled that Ready, is told to campaign (Campaign() or a
+// MsgTimeoutNow): it must refuse quietly, the snapshot is not saved yet.
+func (x *gen) campaignOnPendingSnapshot() {
+	c := x.c
+	l := x.leader()
+	if l == nil || len(c.alive()) < 3 {
+		return
+	}
+	f := x.others(l.id)[x.g.Intn(len(x.others(l.id)))]
+	x.isolate(f)
+	x.net0()
+	for i := 0; i < 3; i++ {
+		c.exec(fmt.Sprintf("propose %d", l.id))
+	}
+	for r := 0; r < 4; r++ {
+		for _, n := range x.others(f.id) {
+			c.exec(fmt.Sprintf("process %d", n.id))
+		}
+		x.deliverAll()
+	}
+	if !x.isLeader(l) {
+		c.exec("unblock")
+		return
+	}
+	c.exec(fmt.Sprintf("snapshot %d", l.id))
+	c.exec(fmt.Sprintf("compact %d 1000", l.id))
+	c.exec("unblock")
+	x.net0()
+	for r := 0; r < 8 && !c.stopped; r++ {
+		c.exec(fmt.Sprintf("tick %d", l.id))
+		c.exec(fmt.Sprintf("process %d", l.id))
+		if i := x.netIndex(pb.MsgSnap, f.id); i >= 0 {
+			c.exec(fmt.Sprintf("deliver %d", i)) // stepped; the Ready that carries it is not handled yet
+			if x.g.Intn(2) == 0 {
+				c.exec(fmt.Sprintf("campaign %d", f.id))
+			} else {
+				c.exec(fmt.Sprintf("transfer %d %d", l.id, f.id))
+				c.exec(fmt.Sprintf("process %d", l.id))
+				if j := x.netIndex(pb.MsgTimeoutNow, f.id); j >= 0 {
+					c.exec(fmt.Sprintf("deliver %d", j))
+				} else {
+					c.exec(fmt.Sprintf("campaign %d", f.id))
+				}
+			}
+			break
+		}
+		x.deliverAll()
+		c.exec(fmt.Sprintf("process %d", f.id))
+	}
+	c.exec("flush 6")
 }
 
 // directedSnapInactive (CheckQuorum): a follower is down long enough to be marked inactive while the
